@@ -612,6 +612,13 @@ func childMain() {
 			os.Exit(0)
 		}
 	}
+	if err == nil && k.Kind == "poolf" {
+		var c firstUseCase
+		if err = json.Unmarshal(raw, &c); err == nil {
+			json.NewEncoder(os.Stdout).Encode(runFirstUse(c))
+			os.Exit(0)
+		}
+	}
 	var c poolCase
 	if err == nil {
 		err = json.Unmarshal(raw, &c)
@@ -987,7 +994,11 @@ func Run(ctx *core.Ctx) {
 		"(f) entry points in every declaration form (function declaration, var / assignment / this. / defineProperty / inside a block, an IIFE or eval = property of the global object; let / const with function expression or arrow function = global lexical binding; " +
 		"block-scoped let / const, function-local, eval-local = no global binding), both names in every pair of forms and of {function, not a function, absent}; " +
 		"(g) pool hammer in a child process: stateless scripts that call all 15 helpers on every evaluation with arguments built afresh from the request (and clock-independent weekdayRange / dateRange / timeRange calls), " +
-		"16-64 callers released together on a fresh pool per round, every request new, nothing evaluated before; every answer = the model's answer to the request asked alone. " +
+		"16-64 callers released together on a fresh pool per round, every request new, nothing evaluated before; every answer = the model's answer to the request asked alone; " +
+		"(h) first use of a pool, in child processes: some hundred fresh pools of one stateless script whose every answer spells the request's host, each hit once by 2-8 callers spinning on a start flag, " +
+		"runtimes tagged through pac.Option (K evaluations in flight are inside K runtimes), every answer = the request asked alone; one such case in a child built with the Go race detector (a data race in forwarder/pac is a finding); " +
+		"in (a), (b), (e) 12% of the helper calls have a string argument (or all) replaced by a word with a meaning to the engine (Object.prototype member names, __proto__, length, undefined / null / NaN, numeric strings, " +
+		"the empty string, RegExp metacharacters, 1-4 kB strings). " +
 		"Non-trivial: a tree with at least one condition, a helper call with at least one argument, a result list with a separator or space, a pool run with more than one caller; distinct = distinct canonical inputs")
 	ctx.Assume("the JavaScript engine (goja) and Go's net/netip, net.SplitHostPort, strings.TrimSpace are modelled, not verified")
 	for _, c := range core.LoadCorpus(ctx.Root, "C14") {
@@ -1080,6 +1091,20 @@ func Run(ctx *core.Ctx) {
 		c := genHammerCase(r, callers, ctx.N(3, 4), ctx.N(3, 5), 2)
 		checkHammer(ctx, c)
 	}
+	// the first evaluations on a fresh pool: many pools, each hit once by 2-8 callers spinning on a start flag
+	nFirstUse := ctx.N(2, 8)
+	for i := 0; i < nFirstUse; i++ {
+		r := ctx.Rng.Sub()
+		c := genFirstUseCase(r, ctx.N(100, 400), false)
+		checkFirstUse(ctx, c)
+	}
+	// … and under the race detector (fewer pools: what it reports does not depend on the callers meeting)
+	defer removeRaceChild()
+	for i, n := 0, ctx.N(1, 4); i < n; i++ {
+		r := ctx.Rng.Sub()
+		c := genFirstUseCase(r, ctx.N(30, 60), true)
+		checkFirstUse(ctx, c)
+	}
 }
 
 func Replay(ctx *core.Ctx, raw json.RawMessage) {
@@ -1112,6 +1137,10 @@ func Replay(ctx *core.Ctx, raw json.RawMessage) {
 		var c hammerCase
 		json.Unmarshal(raw, &c)
 		checkHammer(ctx, c)
+	case "poolf":
+		var c firstUseCase
+		json.Unmarshal(raw, &c)
+		checkFirstUse(ctx, c)
 	default:
 		core.Fatalf("C14: unknown case kind %q", k.Kind)
 	}
